@@ -73,6 +73,9 @@ func main() {
 	work := filepath.Join(*root, ".work")
 	os.MkdirAll(filepath.Join(work, "bin"), 0o755)
 	runDir := filepath.Join(work, "run", id+"-"+*tier)
+	if *modfile != "" {
+		runDir += "-alt" // mutation trials run against a scratch copy and must not disturb a normal run
+	}
 	os.RemoveAll(runDir)
 	os.MkdirAll(runDir, 0o755)
 
@@ -98,7 +101,12 @@ func main() {
 
 	if id == "C05" {
 		// the CLI tool is one of C05's entry points: build it from the current tree as well
-		a := []string{"build", "-o", filepath.Join(work, "bin", "c05-parsefile")}
+		cliBin := filepath.Join(work, "bin", "c05-parsefile")
+		if *modfile != "" {
+			cliBin += "-alt"
+		}
+		os.Setenv("VERIF_C05_CLI", cliBin)
+		a := []string{"build", "-o", cliBin}
 		if *modfile != "" {
 			a = append(a, "-modfile="+*modfile)
 		}
